@@ -6,7 +6,6 @@ import (
 	"fmt"
 	"go/token"
 	"go/types"
-	"strings"
 
 	"golang.org/x/tools/go/ssa"
 )
@@ -199,6 +198,11 @@ func (f *frame) invEnv(li *loopInfo, st *State, phiTerm func(p *ssa.Phi) string)
 		env.vars["ζmap"] = cval{term: f.termOf(r.X), typ: r.X.Type()}
 	}
 	env.loop = li
+	for k, v := range f.lets {
+		if _, clash := env.vars[k]; !clash {
+			env.vars[k] = v
+		}
+	}
 	return env
 }
 
@@ -252,7 +256,7 @@ func (f *frame) enterLoop(li *loopInfo, es []edge) (string, *State, error) {
 		cond = t.havocAll(st, cond, !eff.trace)
 	} else {
 		for _, name := range sortedKeys(eff.arrs) {
-			sortA := eff.arrs[name]
+			sortA := t.descSort(eff.arrs[name])
 			if _, ok := t.arrSort[name]; !ok {
 				t.arrSort[name] = sortA
 			}
@@ -320,225 +324,3 @@ func (f *frame) backEdge(li *loopInfo, from *ssa.BasicBlock, cond string, st *St
 	return nil
 }
 
-// ---------------------------------------------------------------------------
-// loop effects (which heap arrays a loop body may modify)
-
-type effects struct {
-	arrs  map[string]string // array -> sort
-	all   bool
-	trace bool
-	alloc bool
-}
-
-func (f *frame) staticStoreTargets(addr ssa.Value, e *effects) {
-	t := f.t
-	switch a := addr.(type) {
-	case *ssa.FieldAddr:
-		_, T, ok := isStructPtr(a.X.Type())
-		if !ok {
-			e.all = true
-			return
-		}
-		fld := T.Underlying().(*types.Struct).Field(a.Field)
-		f.addTypeStoreTargets(T, fld, e)
-	case *ssa.IndexAddr:
-		var elem types.Type
-		switch u := a.X.Type().Underlying().(type) {
-		case *types.Slice:
-			elem = u.Elem()
-		case *types.Pointer:
-			elem = u.Elem().Underlying().(*types.Array).Elem()
-		}
-		if elem == nil {
-			e.all = true
-			return
-		}
-		if _, isS := elem.Underlying().(*types.Struct); isS {
-			f.addStructTargets(elem, e)
-			return
-		}
-		e.arrs[elemArr(elem)] = arrOf(arrOf(t.B.sortOf(elem)))
-	case *ssa.Alloc:
-		pt := a.Type().(*types.Pointer).Elem()
-		if _, isS := pt.Underlying().(*types.Struct); isS {
-			f.addStructTargets(pt, e)
-			return
-		}
-		if !a.Heap {
-			e.arrs[f.localName(a)] = t.B.sortOf(pt)
-			return
-		}
-		if arr, ok := pt.Underlying().(*types.Array); ok {
-			e.arrs[elemArr(arr.Elem())] = arrOf(arrOf(t.B.sortOf(arr.Elem())))
-			return
-		}
-		e.arrs[cellArr(pt)] = arrOf(t.B.sortOf(pt))
-	default:
-		p, ok := addr.Type().Underlying().(*types.Pointer)
-		if !ok {
-			e.all = true
-			return
-		}
-		if _, isS := p.Elem().Underlying().(*types.Struct); isS {
-			f.addStructTargets(p.Elem(), e)
-			return
-		}
-		e.arrs[cellArr(p.Elem())] = arrOf(t.B.sortOf(p.Elem()))
-	}
-}
-
-func (f *frame) addTypeStoreTargets(T types.Type, fld *types.Var, e *effects) {
-	if _, isS := fld.Type().Underlying().(*types.Struct); isS {
-		f.addStructTargets(fld.Type(), e)
-		return
-	}
-	e.arrs[fieldArr(T, fld.Name())] = arrOf(f.t.B.sortOf(fld.Type()))
-}
-
-func (f *frame) addStructTargets(T types.Type, e *effects) {
-	s := T.Underlying().(*types.Struct)
-	for i := 0; i < s.NumFields(); i++ {
-		f.addTypeStoreTargets(T, s.Field(i), e)
-	}
-}
-
-func (f *frame) localName(a *ssa.Alloc) string {
-	return fmt.Sprintf("L:f%d.%s", f.id, a.Name())
-}
-
-func (f *frame) loopEffects(li *loopInfo) *effects {
-	e := &effects{arrs: map[string]string{}}
-	for b := range li.body {
-		f.blockEffects(b, e, 0, map[*ssa.Function]bool{})
-	}
-	return e
-}
-
-func (f *frame) blockEffects(b *ssa.BasicBlock, e *effects, depth int, seen map[*ssa.Function]bool) {
-	t := f.t
-	for _, in := range b.Instrs {
-		switch x := in.(type) {
-		case *ssa.Store:
-			f.staticStoreTargets(x.Addr, e)
-		case *ssa.MapUpdate:
-			mt := x.Map.Type().Underlying().(*types.Map)
-			e.arrs[mapPArr(mt)] = arrOf("(Array " + t.B.sortOf(mt.Key()) + " Bool)")
-			e.arrs[mapVArr(mt)] = arrOf("(Array " + t.B.sortOf(mt.Key()) + " " + t.B.sortOf(mt.Elem()) + ")")
-		case *ssa.Alloc:
-			e.alloc = true
-			if x.Heap || isStructAlloc(x) {
-				f.staticStoreTargets(x, e)
-			} else {
-				e.arrs[f.localName(x)] = t.B.sortOf(x.Type().(*types.Pointer).Elem())
-			}
-		case *ssa.MakeSlice, *ssa.MakeMap, *ssa.MakeChan, *ssa.MakeClosure:
-			e.alloc = true
-			if ms, ok := x.(*ssa.MakeSlice); ok {
-				el := ms.Type().Underlying().(*types.Slice).Elem()
-				e.arrs[elemArr(el)] = arrOf(arrOf(t.B.sortOf(el)))
-			}
-			if mm, ok := x.(*ssa.MakeMap); ok {
-				mt := mm.Type().Underlying().(*types.Map)
-				e.arrs[mapPArr(mt)] = arrOf("(Array " + t.B.sortOf(mt.Key()) + " Bool)")
-				e.arrs[mapVArr(mt)] = arrOf("(Array " + t.B.sortOf(mt.Key()) + " " + t.B.sortOf(mt.Elem()) + ")")
-			}
-		case *ssa.Defer:
-			if !t.isNoopCall(&x.Call) {
-				e.all = true
-				e.trace = true
-			}
-		case *ssa.Go:
-			// spawned goroutines are not executed
-		case *ssa.Send, *ssa.Select:
-		case ssa.CallInstruction:
-			f.callEffects(x.Common(), e, depth, seen)
-		}
-	}
-}
-
-func isStructAlloc(a *ssa.Alloc) bool {
-	_, ok := a.Type().(*types.Pointer).Elem().Underlying().(*types.Struct)
-	return ok
-}
-
-func (f *frame) callEffects(c *ssa.CallCommon, e *effects, depth int, seen map[*ssa.Function]bool) {
-	t := f.t
-	plan := t.planCall(f, c)
-	switch plan.kind {
-	case planNoop, planPureUF:
-		return
-	case planNoEffect:
-		e.alloc = true
-		return
-	case planBuiltin:
-		switch plan.builtin {
-		case "append":
-			el := c.Args[0].Type().Underlying().(*types.Slice).Elem()
-			e.arrs[elemArr(el)] = arrOf(arrOf(t.B.sortOf(el)))
-			e.alloc = true
-		case "copy":
-			if sl, ok := c.Args[0].Type().Underlying().(*types.Slice); ok {
-				e.arrs[elemArr(sl.Elem())] = arrOf(arrOf(t.B.sortOf(sl.Elem())))
-			}
-		case "delete", "clear":
-			if mt, ok := c.Args[0].Type().Underlying().(*types.Map); ok {
-				e.arrs[mapPArr(mt)] = arrOf("(Array " + t.B.sortOf(mt.Key()) + " Bool)")
-				e.arrs[mapVArr(mt)] = arrOf("(Array " + t.B.sortOf(mt.Key()) + " " + t.B.sortOf(mt.Elem()) + ")")
-			} else {
-				e.all = true
-			}
-		}
-		return
-	case planContract:
-		fc := plan.fc
-		e.alloc = true
-		if len(fc.Emits) > 0 {
-			e.trace = true
-		}
-		if fc.Pure || fc.NoEffect {
-			return
-		}
-		if !fc.HasMod {
-			e.all = true
-			e.trace = true
-			return
-		}
-		for _, m := range fc.Modifies {
-			if m == "trace" {
-				e.trace = true
-				continue
-			}
-			arrs, err := t.modifiesArrays(fc, plan, m)
-			if err != nil {
-				e.all = true
-				continue
-			}
-			for k, v := range arrs {
-				e.arrs[k] = v
-			}
-		}
-		return
-	case planInline:
-		if depth > 4 || seen[plan.callee] {
-			e.all = true
-			e.trace = true
-			return
-		}
-		seen[plan.callee] = true
-		sub := t.newFrame(plan.callee, false, depth+1)
-		for _, b := range plan.callee.Blocks {
-			sub.blockEffects(b, e, depth+1, seen)
-		}
-		// locals of the inlined frame are private: drop them
-		for k := range e.arrs {
-			if strings.HasPrefix(k, fmt.Sprintf("L:f%d.", sub.id)) {
-				delete(e.arrs, k)
-			}
-		}
-		delete(seen, plan.callee)
-		return
-	}
-	e.all = true
-	e.trace = true
-	e.alloc = true
-}
